@@ -12,6 +12,7 @@ from .. import gen, regen, rt
 from ..common import Check, Diff, call, esc, exn_tag
 
 GWY = "18:006402"
+IDX_SIMPLE: set = set()
 NULL_0418 = "000000B0000000000000000000007FFFFF7000000000"
 
 
@@ -50,6 +51,10 @@ def run(chk: Check) -> None:
     from ramses_tx.command import Command
     from ramses_tx.packet import Packet
 
+    from ramses_tx.ramses import CODE_IDX_ARE_SIMPLE
+
+    global IDX_SIMPLE
+    IDX_SIMPLE = {str(c) for c in CODE_IDX_ARE_SIMPLE} - {"1FC9"}    # (a binding exchange is not correlated by the first byte of its triples)
     rnd = random.Random(chk.seed)
     thorough = chk.tier == "thorough"
     N = 100000 if thorough else 6000
@@ -243,6 +248,11 @@ def run(chk: Check) -> None:
             misses = []
             has_ctx = q_tx.count("|") == 3  # the library itself regards this request as contextual
             oc = other_ctx(code, rp_payload) if has_ctx else None
+            if not has_ctx and code in IDX_SIMPLE and len(rp_payload) >= 2 and rp_payload[:2] == payload[:2]:
+                # the library regards the request as index-less (e.g. index 00 to a relay, an OTB, a DHW sensor, a HVAC unit), but
+                # the code is one whose first byte is a zone / domain index: the same reply under another index
+                oc = rnd.choice(("01", "02", "0B", "15", "21", "F9", "FC"))
+                oc = None if oc == rp_payload[:2] else oc + rp_payload[2:]
             if oc and re.match(by_cv[(code, rverb)], oc) and not (code == "0418" and oc == NULL_0418):
                 misses.append(("ctx", f"{rverb} --- {dst} {reply[17:26]} --:------ {code} {len(oc) // 2:03d} {oc}"))
             # the extreme member: the same reply in context 00 (for 0418 that is where a *null* entry is reported; a real
@@ -275,6 +285,9 @@ def run(chk: Check) -> None:
                                   {"op": "echo", "request": q, "packet": m, "gwy": g})
         # echo near misses
         oq = other_ctx(code, payload) if q_tx.count("|") == 3 else None
+        if q_tx.count("|") != 3 and code in IDX_SIMPLE and len(payload) > 2:
+            oq = rnd.choice(("01", "02", "0B", "15", "21", "F9", "FC"))
+            oq = None if oq == payload[:2] else oq + payload[2:]
         if oq and re.match(pat, oq):
             m = f"{verb} --- {echo[7:16]} {dst} --:------ {code} {len(oq) // 2:03d} {oq}"
             try:
